@@ -80,6 +80,12 @@ func (r C09Req) raw() []byte {
 // checked for leaked file contents.
 var shellish = regexp.MustCompile(`(?i)^/+(i|o|io|c|%69|%6f|%63|%69%6f|i%6f|%69o)(/|$|\?)`)
 
+// isShellish applies shellish to the path part of a target.
+func isShellish(target string) bool {
+	target = strings.TrimPrefix(target, "https://files.example")
+	return shellish.MatchString(target)
+}
+
 type treeInfo struct {
 	root     string
 	contents map[string][]byte // inside relative name -> content
@@ -177,7 +183,7 @@ func runC09(t testing.TB, c C09Case) (key, what string, st c09Stats) {
 				return "HARNESS", desc + ": dial: " + err.Error(), st
 			}
 			d := 1500 * time.Millisecond
-			if shellish.MatchString(cur.target()) {
+			if isShellish(cur.target()) {
 				d = 300 * time.Millisecond
 			}
 			m := cur.Method
@@ -229,11 +235,11 @@ func runC09(t testing.TB, c C09Case) (key, what string, st c09Stats) {
 			isListing := bytes.Contains(body, []byte("<pre>")) && bytes.Contains(body, []byte("</pre>"))
 			switch c.Mode {
 			case "unset":
-				if !shellish.MatchString(cur.target()) {
+				if !isShellish(cur.target()) {
 					return "served-without-files-configured", fmt.Sprintf("%s: status %d with a body although no files are served: %q", desc, res.Status, clip(string(body), 200)), st
 				}
 			case "file":
-				if !shellish.MatchString(cur.target()) && !bytes.Contains(single, body) {
+				if !isShellish(cur.target()) && !bytes.Contains(single, body) {
 					return "single-file-mode-other-content", fmt.Sprintf("%s: single-file mode returned something else: %q", desc, clip(string(body), 200)), st
 				}
 			case "dir":
@@ -252,11 +258,15 @@ func runC09(t testing.TB, c C09Case) (key, what string, st c09Stats) {
 				}
 			}
 		}
-		if c.Mode == "unset" && !streaming && !shellish.MatchString(cur.target()) && res.Status/100 == 2 {
-			return "served-without-files-configured", fmt.Sprintf("%s: status %d although no files are served", desc, res.Status), st
+		if c.Mode == "unset" && !streaming && !isShellish(cur.target()) && !isShellish(rq.target()) {
+			switch res.Status {
+			case 404, 400, 405, 414, 431, 501, 505: // 404, or the HTTP layer's own refusals
+			default:
+				return "served-without-files-configured", fmt.Sprintf("%s: status %d although no files are served (want 404)", desc, res.Status), st
+			}
 		}
 		// (6) file requests are reported
-		if c.Mode != "unset" && !streaming && !shellish.MatchString(rq.target()) && !shellish.MatchString(cur.target()) {
+		if c.Mode != "unset" && !streaming && !isShellish(rq.target()) && !isShellish(cur.target()) {
 			switch res.Status {
 			case 200, 206, 304, 403, 404, 416, 500:
 				s.Barrier()
@@ -266,7 +276,13 @@ func runC09(t testing.TB, c C09Case) (key, what string, st c09Stats) {
 					}
 				}
 				if notices == 0 {
-					return "file-request-not-reported", fmt.Sprintf("%s: answered %d by the file handler but no 'File requested' notice", desc, res.Status), st
+					var win []string
+					for _, l := range s.Lines() {
+						if l.Seq > from {
+							win = append(win, clip(l.CL.Line, 80))
+						}
+					}
+					return "file-request-not-reported", fmt.Sprintf("%s: answered %d (%d body bytes, final target %q) by the file handler but no 'File requested' notice; notices since the request: %q", desc, res.Status, len(res.Body), clip(cur.target(), 80), win), st
 				}
 			}
 		}
@@ -376,7 +392,7 @@ func genC09() *rapid.Generator[C09Case] {
 			}
 			switch rapid.IntRange(0, 9).Draw(t, "extra") {
 			case 0:
-				r.Extra = "Range: bytes=" + rapid.SampledFrom([]string{"0-4", "5-", "-3", "1000-", "0-0,2-3"}).Draw(t, "range") + "\r\n"
+				r.Extra = "Range: bytes=" + rapid.SampledFrom([]string{"0-4", "5-", "-3", "1000-", "2-2"}).Draw(t, "range") + "\r\n"
 			case 1:
 				r.Extra = "If-Modified-Since: " + rapid.SampledFrom([]string{"Mon, 02 Jan 2040 15:04:05 GMT", "Mon, 02 Jan 2006 15:04:05 GMT"}).Draw(t, "ims") + "\r\n"
 			}
